@@ -215,6 +215,31 @@ def instrument_record(repo: Repo, rep, P: str, tables):
                 rep.violation(f"{P}.R1", rcon, text, f"slot {i} is written from `{wf}` but loaded into `{rf}`", f"{rel}:{r.node.lineno}")
         if ok:
             rep.ok(f"{P}.R1", wcon, text, f"{w.width} byte(s) at offset {woff[i]:#x}" if woff[i] is not None else "")
+    # the note map field carries the whole map: its data part (before padding to the field width) is as long as the map
+    try:
+        nmap = samp.nested.get("NoteSampleMap")
+        le2 = _len_eval(repo, samp, wfn)
+        n_keys = le2.container_size(nmap) if nmap is not None else None
+    except Unknown:
+        n_keys = None
+    for s_ in ws:
+        if not (s_.comment and s_.comment[1] == "smp_num") or not isinstance(s_.node, ast.Call) or not s_.node.args:
+            continue
+        data = s_.node.args[0]
+        while isinstance(data, ast.Call) and isinstance(data.func, ast.Attribute) and data.func.attr in ("ljust",) and data.args:
+            data = data.func.value
+        try:
+            iv = le2.of(data)
+        except Unknown:
+            iv = None
+        if iv is None or n_keys is None or n_keys[0] != n_keys[1]:
+            rep.inconclusive(f"{P}.R1", wcon, f"smp_num ← {norm(data)[:80]}", "length of the note-map data not derived", f"{rel}:{s_.node.lineno}")
+        elif iv[1] < n_keys[0]:
+            rep.violation(f"{P}.R1", wcon, f"smp_num ← {norm(data)[:80]}",
+                          f"the note map has {n_keys[0]} entries but at most {iv[1]} byte(s) of it reach the `smp_num` field: the entries above "
+                          f"index {iv[1] - 1} are written as padding (0) and those notes play sample 0 after reloading", f"{rel}:{s_.node.lineno}")
+        elif iv[0] >= n_keys[0]:
+            rep.ok(f"{P}.R1", wcon, f"smp_num ← {norm(data)[:60]}", f"all {n_keys[0]} note-map entries are written")
     tw, tr = _total(ws), _total(rs)
     tc = sum(s.comment[2] for s in rs if s.comment) if all(s.comment for s in rs) else None
     rep.instances["instrument_record_bytes"] = {"writer": tw, "reader": tr, "struct_comments": tc}
